@@ -136,6 +136,11 @@ func genXport(r *rng, seed uint64, focus, arm string) *plan.Plan {
 				act.Arg = r.rng(3, 6)
 			}
 		case "C06":
+			if kind == "udp" && r.p(0.6) {
+				// the TCP leg of a truncated UDP reply is a one-query-at-a-time connection too
+				t.Acts = []plan.UpAction{{Kind: "truncate_udp", DelayUs: r.i64(50, 2000), Arg: r.intn(2)}, {Kind: "reply", DelayUs: delay}}
+				break
+			}
 			// one reply per query is the precondition; vary timing only, plus aborts
 			switch r.intn(12) {
 			case 0:
@@ -150,7 +155,8 @@ func genXport(r *rng, seed uint64, focus, arm string) *plan.Plan {
 			}
 		case "C16":
 			if r.p(0.6) {
-				t.Acts = []plan.UpAction{{Kind: "truncate_udp", DelayUs: delay}}
+				t.Acts = []plan.UpAction{{Kind: "truncate_udp", DelayUs: delay, Arg: r.intn(2)}}
+				t.Ans.NAn = r.rng(1, 6)
 				k2 := []string{"reply", "reply", "reply", "silent", "fin", "rst"}[r.intn(6)]
 				d2 := r.i64(50, 300_000)
 				if k2 == "reply" && r.p(0.15) {
